@@ -57,6 +57,10 @@ Record st := St {
 
 Inductive outev :=
 | Send (cmd : str) (args : list str)
+| SendCred (chunk : str) (acked : bool)    (* AUTHENTICATE <credential chunk>: same wire form as Send AUTHENTICATE [chunk];
+                                              ghost: 'sasl' was acknowledged on this connection *)
+| GReq (caps advertised acked : list str)  (* ghost: _requestCaps is about to request [caps]; what was advertised / acknowledged then *)
+| GEnd (n : nat) (outstanding : list str)  (* ghost: the n-th CAP END of this connection; requests still unanswered then *)
 | Reconnect (server : option (str * Z * Z * bool)) (wait : bool)   (* host, port, attempt, force verification *)
 | Die
 | StoreSts (host policy : str).
@@ -179,6 +183,7 @@ Definition reconnect (c : cfg) (s : st) (server : option (str * Z * Z * bool)) (
 (* ---- CAP ---- *)
 Definition endCap (s : st) : R :=
   transition gen.T08.EV_on_cap_end s >>> fun s =>
+  emit s (GEnd (S (g_ends s)) (sdiff (req s) (sunion (ack s) (nak s)))) >>> fun s =>
   send (St (fsm s) (ls s) (req s) (ack s) (nak s) (snext s) (scur s) (authed s) (dec s) (after s) (zombie s)
            (g_acked s) (S (g_ends s))) s_CAP [s_END].
 
@@ -312,7 +317,8 @@ Definition requestCaps (s : st) (caps0 : list str) : R :=
       if smem s_label caps1 then s_echo :: s_label :: sremove s_label caps1 else caps1
     else caps in
   let s1 := set_caps s (ls s) (sunion (req s) caps) (ack s) (nak s) in
-  fold_left (fun (r : R) line => r >>> fun s => send s s_CAP [s_REQ; line]) (wrap_caps caps) (ret s1).
+  fold_left (fun (r : R) line => r >>> fun s => send s s_CAP [s_REQ; line]) (wrap_caps caps)
+            (emit s1 (GReq caps (map fst (ls s)) (ack s))).
 
 Definition new_caps (c : cfg) (s : st) : list str :=
   sdiff (filter (fun x => smem x (c_wanted c)) (map fst (ls s))) (ack s).
@@ -385,7 +391,7 @@ Definition doCapNew (c : cfg) (s : st) (args : list str) : R :=
 
 (* ---- AUTHENTICATE ---- *)
 Definition send_chunks (s : st) (chunks : list str) : R :=
-  fold_left (fun (r : R) ch => r >>> fun s => send s s_AUTH [ch]) chunks (ret s).
+  fold_left (fun (r : R) ch => r >>> fun s => emit s (SendCred ch (g_acked s))) chunks (ret s).
 
 Definition set_dec (s : st) (d : option (list str * bool)) : st :=
   St (fsm s) (ls s) (req s) (ack s) (nak s) (snext s) (scur s) (authed s) d (after s) (zombie s) (g_acked s) (g_ends s).
@@ -526,6 +532,9 @@ Definition vState (s : st) : value :=
 Definition vOut (o : outev) : value :=
   match o with
   | Send cmd args => L [I 0; vS cmd; vLS args]
+  | SendCred ch _ => L [I 0; vS s_AUTH; vLS [ch]]
+  | GReq _ _ _ => L []
+  | GEnd _ _ => L []
   | Reconnect None w => L [I 1; L []; vB w]
   | Reconnect (Some (h, p, a, f)) w => L [I 1; L [vS h; I p; I a; vB f]; vB w]
   | Die => L [I 2]
@@ -541,6 +550,7 @@ Definition gMsg (v : value) : inmsg :=
   | 4 => IPing (gLS a)
   | _ => IReset
   end.
+Definition visible (o : outev) : bool := match o with GReq _ _ _ => false | GEnd _ _ => false | _ => true end.
 Definition vExn (e : option exn) : value := match e with None => L [] | Some x => L [I (exn_code x)] end.
 
 (* run (0 (cfg state msg)) -> (state' outputs exn)     one step from a snapshot
@@ -549,7 +559,7 @@ Definition run (v : value) : value :=
   let p := nth_v 1 v in
   match gN (nth_v 0 v) with
   | 0 => let '(s', o, e) := step (gCfg (nth_v 0 p)) (gState (nth_v 1 p)) (gMsg (nth_v 2 p)) in
-         L [vState s'; L (map vOut o); vExn e]
+         L [vState s'; L (map vOut (filter visible o)); vExn e]
   | 1 => vO (fun z => I z) (parseStsPolicy (gS (nth_v 0 p)) (gB (nth_v 1 p)))
   | _ => L []
   end.
